@@ -1325,7 +1325,9 @@ def add_invariant_checks(cls: ClassT) -> None:
         else:
             wrapper = _decorate_with_invariants(func=init_func, is_init=True)
             if wrapper is not init_func:
-                setattr(cls, init_func.__name__, wrapper)
+                # The function behind ``__init__`` is not necessarily called ``__init__`` (e.g., an alias or
+                # a function returned by a decorator which does not preserve the name).
+                setattr(cls, "__init__", wrapper)
 
     # The members which have been already decorated (e.g., inherited from a base class) must not be set again
     # on the class: that would shadow the overrides of the other base classes in the method resolution order.
